@@ -314,6 +314,11 @@ def gen_s1(rng, nboards=None, table=None):
         # vulnerability, id and table, at a random earlier position and again at the end
         import copy as _copy
         boards[-1] = _copy.deepcopy(boards[rng.randrange(nboards - 1)])
+        if rng.random() < 0.5:
+            # ... and it is the very same BoardSetting object in the list (a board list built as
+            # [b, b], or one parsed list used again): what the first playing did to the object
+            # -- e.g. to its Hands -- is what the second one is dealt
+            boards[-1]['same_object'] = True
     if nboards >= 2 and rng.random() < 0.08:
         # different boards under the same identifier (two segments both numbered from 1, or no
         # identifiers at all)
